@@ -33,10 +33,20 @@ def split_delay(s):
 
 def delayed(a, K, m, f, drop=None):
     """The downward wave on K samples.  `drop` in (None, 'first', 'last') is only used for the
-    bracket check of delays that lie within rounding of a whole number (see c19.py)."""
+    bracket check of delays that lie within rounding of a whole number (see c19.py).  drop='pad' is the
+    second reading of "linearly interpolated": the interpolant of the ZERO-PADDED record (a[-1] = a[n] = 0), which
+    ramps over the fractional sample in front of and behind the record: down[m] = (1-f)*a[0], down[m+n] = f*a[n-1]."""
     a = np.asarray(a, dtype=LD)
     n = len(a)
     d = np.zeros(K, dtype=LD)
+    if f != 0 and drop == "pad":
+        ff = LD(f)
+        ax = np.concatenate([np.zeros(1, dtype=LD), a, np.zeros(1, dtype=LD)])
+        blend = ff * ax[:-1] + (LD(1) - ff) * ax[1:]  # value at k = m .. m+n
+        hi = min(K, m + n + 1)
+        if hi > m:
+            d[m:hi] = blend[:hi - m]
+        return d
     if f == 0:
         hi = min(K, m + n)
         if hi > m:
@@ -55,11 +65,18 @@ def delayed(a, K, m, f, drop=None):
     return d
 
 
-def delayed_magnitude(a, K, m, f):
+def delayed_magnitude(a, K, m, f, pad=False):
     """Sum of the magnitudes entering down[k] (double) - used for rounding bounds."""
     a = np.abs(np.asarray(a, dtype=float))
     n = len(a)
     d = np.zeros(K)
+    if f != 0 and pad:
+        ax = np.concatenate([[0.0], a, [0.0]])
+        both = ax[:-1] + ax[1:]
+        hi = min(K, m + n + 1)
+        if hi > m:
+            d[m:hi] = both[:hi - m]
+        return d
     if f == 0:
         hi = min(K, m + n)
         if hi > m:
@@ -86,25 +103,76 @@ def accel(a, K, m, f, up_red, down_red, nodal, drop=None):
     return up - dn if nodal else up + dn
 
 
-def accel_magnitude(a, K, m, f, up_red, down_red):
+def accel_magnitude(a, K, m, f, up_red, down_red, pad=False):
     """(U, D): |up_red*a[k]| and |down_red|*(|a_lo|+|a_hi|) per sample (double)."""
     u = np.zeros(K)
     aa = np.abs(np.asarray(a, dtype=float))
     u[:min(K, len(aa))] = aa[:min(K, len(aa))]
-    return abs(float(up_red)) * u, abs(float(down_red)) * delayed_magnitude(a, K, m, f)
+    return abs(float(up_red)) * u, abs(float(down_red)) * delayed_magnitude(a, K, m, f, pad)
 
 
-def velocity(acc, dt):
-    acc = np.asarray(acc, dtype=LD)
-    v = np.zeros(len(acc), dtype=LD)
+# "integrating": the statement does not name the quadrature.  The cumulative first-order rules on the sample grid:
+#   trap   v[k] = dt*sum_{j=1..k}(acc[j]+acc[j-1])/2     right  v[k] = dt*sum_{j=1..k} acc[j]
+#   left   v[k] = dt*sum_{j=0..k-1} acc[j]               cumsum v[k] = dt*sum_{j=0..k} acc[j]
+RULES = ("trap", "right", "left", "cumsum")
+
+
+def velocity(acc, dt, rule="trap"):
+    acc = np.asarray(acc)
+    if acc.dtype != np.dtype(float):   # float64 stays float64 (row64), everything else is evaluated in long double
+        acc = acc.astype(LD)
+    one = acc.dtype.type
+    v = np.zeros(len(acc), dtype=acc.dtype)
+    if rule == "cumsum":
+        return np.cumsum(one(dt) * acc)
     if len(acc) > 1:
-        v[1:] = np.cumsum(LD(dt) * (acc[1:] + acc[:-1]) / LD(2))
+        if rule == "trap":
+            v[1:] = np.cumsum(one(dt) * (acc[1:] + acc[:-1]) / one(2))
+        elif rule == "right":
+            v[1:] = np.cumsum(one(dt) * acc[1:])
+        elif rule == "left":
+            v[1:] = np.cumsum(one(dt) * acc[:-1])
+        else:
+            raise ValueError(rule)
     return v
 
 
 def energy(v):
     v = np.asarray(v, dtype=LD)
     return v * np.abs(v) / LD(2)
+
+
+# ---------------------------------------------------------------------------
+# the same definition in double precision, one row at a time, for whole batches at mid-range sizes (c19.py checks every row
+# of a batch with it; a hash-chosen sample of rows is checked with the long-double form above as well)
+
+
+def row64(a, K, m, f, up_red, down_red, nodal, dt=None, rule="trap", pad=False):
+    """Acceleration (dt None) or energy of one row on K samples in float64: direct slices, no interpolation routine."""
+    a = np.asarray(a, dtype=float)
+    n = len(a)
+    d = np.zeros(K)
+    if f == 0:
+        hi = min(K, m + n)
+        if hi > m:
+            d[m:hi] = a[:hi - m]
+    elif pad:
+        ax = np.concatenate([[0.0], a, [0.0]])
+        hi = min(K, m + n + 1)
+        if hi > m:
+            d[m:hi] = (f * ax[:-1] + (1.0 - f) * ax[1:])[:hi - m]
+    else:
+        lo, hi = m + 1, min(K, m + n)
+        if hi > lo:
+            d[lo:hi] = (f * a[:-1] + (1.0 - f) * a[1:])[:hi - lo]
+    d *= float(down_red)
+    acc = -d if nodal else d
+    k = min(K, n)
+    acc[:k] += float(up_red) * a[:k]
+    if dt is None:
+        return acc
+    v = velocity(acc, float(dt), rule)
+    return 0.5 * v * np.abs(v)
 
 
 def shift_rows(x, shift, length):
@@ -164,4 +232,34 @@ def validate():
         return "trapezoid velocity of a constant is not c*t"
     if not np.all(energy(-v) == -energy(v)):
         return "energy is not odd in v"
+    # the padded reading against the exact rational interpolant of the zero-padded record
+    a = recs[1]
+    for s_ in (0.25, 2.5, 3.999, 7.125):
+        m, f = split_delay(s_)
+        K = len(a) + int(s_) + 3
+        got = delayed(a, K, m, f, "pad")
+        want = _delayed_exact([0.0] + list(a) + [0.0], K + 1, s_)[1:]   # padded record starts one sample earlier
+        for k in range(K):
+            w = want[k]
+            if abs(got[k] - LD(w.numerator) / LD(w.denominator)) > 4e-19 * (1 + abs(float(w))):
+                return "padded delayed wave reference wrong: s=%r k=%d got %r want %r" % (s_, k, got[k], float(w))
+    # quadrature rules on a ramp acc[k] = k, dt = 0.5: closed forms
+    ramp = np.arange(7, dtype=LD)
+    kk = np.arange(7, dtype=LD)
+    for rule, want in (("trap", kk * kk / 4), ("right", kk * (kk + 1) / 4), ("left", kk * (kk - 1) / 4), ("cumsum", kk * (kk + 1) / 4)):
+        if not np.all(velocity(ramp, 0.5, rule) == want):
+            return "velocity rule %r wrong on a ramp" % rule
+    # the double-precision row form against the long-double form
+    a = np.array(recs[1])
+    for s_, pad in ((0.0, False), (3.0, False), (2.5, False), (2.5, True), (9.75, True), (20.0, False)):
+        m, f = split_delay(s_)
+        for nodal in (True, False):
+            for rule in RULES:
+                K = len(a) + int(s_) + 2
+                acc = accel(a, K, m, f, 0.75, 1.5, nodal, "pad" if pad else None)
+                e = energy(velocity(acc, 0.25, rule))
+                if np.max(np.abs(row64(a, K, m, f, 0.75, 1.5, nodal, pad=pad) - np.asarray(acc, dtype=float))) > 1e-14:
+                    return "row64 acceleration disagrees with the long-double form (s=%r)" % s_
+                if np.max(np.abs(row64(a, K, m, f, 0.75, 1.5, nodal, 0.25, rule, pad) - np.asarray(e, dtype=float))) > 1e-13:
+                    return "row64 energy disagrees with the long-double form (s=%r rule=%s)" % (s_, rule)
     return None
